@@ -25,8 +25,8 @@ Needed(w, h, al) == RowBytes(w, al) * h + (IF al > 0 THEN al - 1 ELSE 0)
 Unequal(a1, a2) == tr = "noprop" /\ a1 # a2
 OpCause ==
     IF op.op \in {"CopyAssign"} /\ Unequal(own[op.h].a, own[op.from].a) THEN "unequal-nonpropagating-allocators"
-    ELSE IF op.op = "Recreate" /\ Unequal(own[op.h].a, 0) THEN "unequal-nonpropagating-allocators"
-    ELSE IF op.op = "RecreateAlloc" /\ Unequal(own[op.h].a, op.a) THEN "unequal-nonpropagating-allocators"
+    ELSE IF op.op \in {"Recreate", "RecreateFill"} /\ Unequal(own[op.h].a, 0) THEN "unequal-nonpropagating-allocators"
+    ELSE IF op.op \in {"RecreateAlloc", "RecreateFillAlloc"} /\ Unequal(own[op.h].a, op.a) THEN "unequal-nonpropagating-allocators"
     ELSE IF op.fail THEN "injected-allocation-failure"
     ELSE "None"
 Key == tr \o ":" \o op.op
@@ -44,7 +44,7 @@ StateVerdict(ev) ==
         x == op.h
         me == IF x \in 1..Len(ev.imgs) THEN ev.imgs[x] ELSE [live |-> FALSE]
         prev == IF x \in DOMAIN own THEN own[x] ELSE NoOwn
-        okRecreate == op.op \in {"Recreate", "RecreateAlloc"} /\ ~op.fail
+        okRecreate == op.op \in {"Recreate", "RecreateAlloc", "RecreateFill", "RecreateFillAlloc"} /\ ~op.fail
         okCtor == op.op = "Ctor" /\ ~op.fail
     IN  \* one live block per non-empty image, of sufficient size, and all pixels inside it
         (IF \E i \in NonEmpty : ev.imgs[i].blk \notin DOMAIN hp \/ ~ev.imgs[i].inside \/ ev.imgs[i].bsize < ev.imgs[i].w * ev.imgs[i].hh * Psz
@@ -61,12 +61,14 @@ StateVerdict(ev) ==
         \cup (IF (okRecreate \/ okCtor) /\ me.live /\ op.al > 0 /\ \E k \in 1..Len(me.rowmod) : me.rowmod[k] % op.al # 0
               THEN {V("P_RowAligned", OpCause, Key, [al |-> op.al, rowmod |-> me.rowmod])} ELSE {})
         \cup (IF okRecreate /\ prev.live /\ prev.blk # 0 /\ prev.bsize >= Needed(op.w, op.hh, op.al) /\ nalloc > 0
-                 /\ (op.op = "Recreate" \/ op.a = prev.a)
+                 /\ (op.op \in {"Recreate", "RecreateFill"} \/ op.a = prev.a)
               THEN {V("P_ReuseStorage", OpCause, Key, [had |-> prev.bsize, needed |-> Needed(op.w, op.hh, op.al)])} ELSE {})
 
 DoneVerdict(ev) ==
     (IF ev.has_eq /\ ~ev.eq THEN {V("P_CopyEqual", IF \E h \in DOMAIN own : own[h].live /\ own[h].w * own[h].h = 0 /\ own[h].w + own[h].h > 0 THEN "zero-area" ELSE "None", Key, "copy does not compare equal to its source")} ELSE {})
     \cup (IF ev.has_eq /\ ev.alias THEN {V("P_DeepCopy", "None", Key, "write through the copy is visible in the source")} ELSE {})
+    \* (a recreate to the dimensions the image already has may be a no-op; when the dimensions change every pixel holds the fill value)
+    \cup (IF ev.op \in {"RecreateFill", "RecreateFillAlloc"} /\ ~ev.threw /\ ~ev.filled /\ (own[op.h].w # op.w \/ own[op.h].h # op.hh) THEN {V("P_RecreateFills", "None", Key, "recreate with a fill value left other values in the image")} ELSE {})
     \cup (IF ev.fired /\ ~ev.threw THEN {V("P_Strong", "None", Key, "allocation failure was swallowed")} ELSE {})
 
 Verdict(ev) ==
